@@ -112,12 +112,13 @@ var c15ResponseRejectLogs = []string{"ERR: Response UDP payload length", "AddFor
 // c15Tap wraps the responder's socket.
 type c15Tap struct {
 	net.PacketConn
-	mu   sync.Mutex
-	in   []string // source address of every datagram read
-	out  []string // destination address of every datagram written
-	hold bool     // while set, a datagram that was read is not handed to the responder yet (see setHold)
-	held int      // datagrams currently kept back
-	gate *sync.Cond
+	mu     sync.Mutex
+	in     []string     // source address of every datagram read
+	out    []string     // destination address of every datagram written
+	recase func([]byte) // applied to every datagram read, before the responder sees it (see setRecase)
+	hold   bool         // while set, a datagram that was read is not handed to the responder yet (see setHold)
+	held   int          // datagrams currently kept back
+	gate   *sync.Cond
 }
 
 func (t *c15Tap) ReadFrom(p []byte) (int, net.Addr, error) {
@@ -125,6 +126,9 @@ func (t *c15Tap) ReadFrom(p []byte) (int, net.Addr, error) {
 	if err == nil {
 		t.mu.Lock()
 		t.in = append(t.in, a.String())
+		if t.recase != nil {
+			t.recase(p[:n]) // a third party between requester and responder rewrote the case of the query name
+		}
 		if t.hold && t.gate != nil {
 			t.held++
 			c15Poke()
@@ -150,6 +154,28 @@ func (t *c15Tap) setHold(h bool) {
 	t.hold = h
 	t.mu.Unlock()
 	t.gate.Broadcast()
+}
+
+// setRecase makes the tap act as a relay that rewrites the letter case of the query name (DNS names
+// are case-insensitive; recursive resolvers with 0x20 randomisation do this): kind as in c15h.Recase.
+func (t *c15Tap) setRecase(nDomain, kind int, seed uint64) {
+	t.mu.Lock()
+	defer t.mu.Unlock()
+	if kind == 0 {
+		t.recase = nil
+		return
+	}
+	t.recase = func(p []byte) { c15h.RecaseQuestion(p, nDomain, kind, seed) }
+}
+
+func c15DomainLabels(domain string) int {
+	n := 0
+	for _, l := range strings.Split(strings.TrimSuffix(domain, "."), ".") {
+		if l != "" {
+			n++
+		}
+	}
+	return n
 }
 
 func (t *c15Tap) snapshot() (in, out []string, held int) {
@@ -465,7 +491,9 @@ type c15XchgCase struct {
 	ReqSeed  uint64 `json:"req_seed"` // request payload = c15h.Expand(seed, len)
 	RespLen  int    `json:"resp_len"`
 	RespSeed uint64 `json:"resp_seed"`
-	CbErr    bool   `json:"callback_error"` // the callback returns an error instead of a response
+	CbErr    bool   `json:"callback_error"`       // the callback returns an error instead of a response
+	QCase    int    `json:"qname_case,omitempty"` // case rewriting of the query name in transit (c15h.CaseKinds)
+	QSeed    uint64 `json:"qname_case_seed,omitempty"`
 }
 
 const c15XchgTimeout = 20 * time.Second
@@ -523,6 +551,10 @@ func c15XchgCheck(t vh.Fataler, rec *vh.Rec, e *c15Env, c c15XchgCase) {
 	s.calls, s.ret, s.retErr = nil, respP, c.CbErr
 	s.mu.Unlock()
 	s.tap.reset()
+	if c.QCase < 0 || c.QCase >= len(c15h.CaseKinds) {
+		t.Fatalf("harness problem: bad qname_case %d", c.QCase)
+	}
+	s.tap.setRecase(c15DomainLabels(s.reqDomain), c.QCase, c.QSeed)
 	e.logs.reset()
 	writes0 := 0
 	if sock := cl.socket(); sock != nil {
@@ -611,8 +643,9 @@ wait:
 	if c.CbErr {
 		classes = append(classes, "callback-error")
 	}
+	classes = append(classes, "qcase:"+c15h.CaseKinds[c.QCase])
 	nontriv := answered && res.err == nil
-	summary := fmt.Sprintf("{srv %d req %d resp %d cberr %v: answered=%v err=%v timeout=%v wire: %d written, %d arrived, %d strays, %d sent back; %d callback calls; log=%q}",
+	summary := fmt.Sprintf("{query-name case in transit: "+c15h.CaseKinds[c.QCase]+"; srv %d req %d resp %d cberr %v: answered=%v err=%v timeout=%v wire: %d written, %d arrived, %d strays, %d sent back; %d callback calls; log=%q}",
 		c.Server, c.ReqLen, c.RespLen, c.CbErr, answered, res.err, timedOut, o.writes, o.arrived, o.strays, o.sent, len(calls), lines)
 	finish := func(outcome string) {
 		rec.Case(nontriv && outcome == "ok", vh.Digest(c), c, append(classes, outcome)...)
@@ -733,14 +766,19 @@ func c15XchgGen(rt *rapid.T) c15XchgCase {
 	}
 	c.RespSeed = c15h.Seeds().Draw(rt, "respseed")
 	c.CbErr = rapid.IntRange(0, 19).Draw(rt, "cberr") == 0
+	c.QCase = rapid.SampledFrom([]int{0, 0, 1, 2, 3, 3, 4, 5}).Draw(rt, "qcase")
+	if c.QCase != 0 {
+		c.QSeed = rapid.Uint64Range(2, 1<<40).Draw(rt, "qseed")
+	}
 	c.Domain = d
 	return c
 }
 
 func TestVerif_C15_exchange(t *testing.T) {
-	rec := vh.NewRec("C15", "exchange", "rapid: one request/response exchange between a real Requester (UDP) and a real Responder on 127.0.0.1, over 8 (responder domain, requester domain) pairs of 3 to 200 octets (incl. a mixed-case / trailing-dot spelling and a domain that leaves no room at all); request length biased to the reference capacity of the domain +-2, to 0/1/15/16 and 205-209 (Noise message of 255/256 bytes), uniform otherwise; response length biased to the reference capacity +-3 (1232-byte UDP limit), the TXT chunk boundaries and sizes beyond 4096; the callback refuses now and then. Oracle: the callback only ever receives the requester's payload; a successful RequestAndRecv returns exactly the callback's bytes; a failure is accepted only with a logged rejection (name too long, response too large, callback error) or an error before anything reached the responder; an exchange with neither answer nor logged rejection is inconclusive. Non-trivial = answered successfully; distinct by case")
+	rec := vh.NewRec("C15", "exchange", "rapid: one request/response exchange between a real Requester (UDP) and a real Responder on 127.0.0.1, over 8 (responder domain, requester domain) pairs of 3 to 200 octets (incl. a mixed-case / trailing-dot spelling and a domain that leaves no room at all); request length biased to the reference capacity of the domain +-2, to 0/1/15/16 and 205-209 (Noise message of 255/256 bytes), uniform otherwise; response length biased to the reference capacity +-3 (1232-byte UDP limit), the TXT chunk boundaries and sizes beyond 4096; the callback refuses now and then; between requester and responder the letter case of the query name is left as sent or rewritten (all upper, all lower, random per letter as 0x20 resolvers do, only the base domain, only the data labels). Oracle: the callback only ever receives the requester's payload; a successful RequestAndRecv returns exactly the callback's bytes; a failure is accepted only with a logged rejection (name too long, response too large, callback error) or an error before anything reached the responder; an exchange with neither answer nor logged rejection is inconclusive. Non-trivial = answered successfully; distinct by case")
 	defer rec.Flush()
-	rec.Require("ok", "req-at-capacity", "req-beyond-capacity", "resp-at-capacity", "resp-beyond-capacity", "req-rejected:name-too-long", "resp-rejected:too-large")
+	rec.Require("ok", "req-at-capacity", "req-beyond-capacity", "resp-at-capacity", "resp-beyond-capacity", "req-rejected:name-too-long", "resp-rejected:too-large",
+		"qcase:as-sent", "qcase:upper", "qcase:lower", "qcase:0x20", "qcase:domain-only", "qcase:data-only")
 	e, err := c15GetEnv()
 	if err != nil {
 		t.Fatalf("harness problem: %v", err)
